@@ -16,7 +16,8 @@ META = {
             "combination of old-basis distributions (taken with nf-1 active flavours) and the heavy quark's plus/minus "
             "combinations prescribed by the forward map has exactly the flavour content of that distribution with nf active "
             "flavours, where flavour contents come from the source's own pids_from_intrinsic_(unified_)evol tables; (3) labels "
-            "of heavier, still inactive quarks are passed through unchanged.",
+            "of heavier, still inactive quarks are passed through unchanged."
+            " Both request orders (direct first / inverse first) and a repeated request give the same maps (rule rotation-independent-of-earlier-requests).",
     "note": "Exhaustive over the six crossings; exact arithmetic on values extracted from the source. The flavour-content tables "
             "themselves are cross-checked against the rotation matrices under C32.",
     "technique": "partial evaluation over the finite configuration space + exact linear algebra",
@@ -52,6 +53,21 @@ def run(chk):
                 continue
             F = {tuple(k.split(".")): _c(v) for k, v in fwd.items()}
             I = {tuple(k.split(".")): _c(v) for k, v in inv.items()}
+            # each map is the same whichever of the two was asked first in the process (an evaluator that asks in the other order, and
+            # one that asks for each map twice): entries left behind by an earlier request would connect the wrong pair of bases
+            try:
+                pe_b = PE(src)
+                inv_b = pe_b.call(frm.qname, [nf, qed, True])
+                fwd_b = pe_b.call(frm.qname, [nf, qed, False])
+                inv_c = pe_b.call(frm.qname, [nf, qed, True])
+                same = all({k: _c(v) for k, v in x.items()} == {k: _c(v) for k, v in y.items()} for x, y in ((fwd, fwd_b), (inv, inv_b), (inv_b, inv_c)))
+                extra = sorted((set(fwd) ^ set(fwd_b)) | (set(inv) ^ set(inv_b)) | (set(inv_b) ^ set(inv_c)))[:4]
+            except PERaise as e:
+                same, extra = False, [f"raises {e}"]
+            chk.decide(same, "rotation-independent-of-earlier-requests", frm.qname,
+                       f"{inst}: the direct / inverse map differs according to which of them was requested first in the process (entries that differ: "
+                       f"{extra}): something written into a shared table by one request shows up in the other", where=frm.where, instance=inst,
+                       how="PE of the two request orders in separate evaluators")
             new_labels = sorted({o for o, _ in F})
             old_labels = sorted({i for _, i in F})
             # (1) composition both ways
